@@ -145,11 +145,11 @@ def read_routines(
         if r["type"] == "COROUTINE":
             if "name" not in r:
                 raise ValueError("Target for a routine not set.")
-            named_coroutines.append(SsbCoroutine(-1, r["name"]))
+            named_coroutines.append(SsbCoroutine(len(routine_infos), r["name"]))
             routine_infos.append(SsbRoutineInfo(SsbRoutineType.COROUTINE, -1))
             routine_ops.append(read_ops(r["ops"]))
         elif r["type"] == "GENERIC":
-            named_coroutines.append(SsbCoroutine(-1, "n/a"))
+            named_coroutines.append(SsbCoroutine(len(routine_infos), "n/a"))
             routine_infos.append(SsbRoutineInfo(SsbRoutineType.GENERIC, -1))
             routine_ops.append(read_ops(r["ops"]))
         elif r["type"] == "ACTOR":
@@ -161,7 +161,7 @@ def read_routines(
                 linked_to = r["target_id"]
             else:
                 linked_to_name = str(r["target_id"])
-            named_coroutines.append(SsbCoroutine(-1, "n/a"))
+            named_coroutines.append(SsbCoroutine(len(routine_infos), "n/a"))
             routine_infos.append(SsbRoutineInfo(SsbRoutineType.ACTOR, linked_to, linked_to_name))
             routine_ops.append(read_ops(r["ops"]))
         elif r["type"] == "OBJECT":
@@ -173,7 +173,7 @@ def read_routines(
                 linked_to = r["target_id"]
             else:
                 linked_to_name = str(r["target_id"])
-            named_coroutines.append(SsbCoroutine(-1, "n/a"))
+            named_coroutines.append(SsbCoroutine(len(routine_infos), "n/a"))
             routine_infos.append(SsbRoutineInfo(SsbRoutineType.OBJECT, linked_to, linked_to_name))
             routine_ops.append(read_ops(r["ops"]))
         elif r["type"] == "PERFORMER":
@@ -185,7 +185,7 @@ def read_routines(
                 linked_to = r["target_id"]
             else:
                 linked_to_name = str(r["target_id"])
-            named_coroutines.append(SsbCoroutine(-1, "n/a"))
+            named_coroutines.append(SsbCoroutine(len(routine_infos), "n/a"))
             routine_infos.append(SsbRoutineInfo(SsbRoutineType.PERFORMER, linked_to, linked_to_name))
             routine_ops.append(read_ops(r["ops"]))
         else:
